@@ -387,6 +387,13 @@ def run_copy(sx, kind, nsym=3):
     A = make_translate(sx, d)
     g2 = geometry(sx, kind, e2)
     _compare(sx, kind, f"{kind}.copy().translate", g0, g2, A, ":copy")
+    # the other direction: a copy that is left alone does not follow the original
+    e3 = e1.copy()
+    g3 = geometry(sx, kind, e3)
+    e1.translate(d)
+    g3b = geometry(sx, kind, e3)
+    _unchanged(sx, g3, g3b, f"{kind}.copy(): translating the original leaves an untouched copy unchanged",
+               f"C09:{kind}:copy:independent:of-original")
     return f"{kind}.copy"
 
 
